@@ -30,6 +30,13 @@ CLAIMED = {
          'read_equals_fresh_stream proved for single-phase objects (multi-phase follows from read_fresh + spec_depends_only_on_state); the unrepaired proxy code is refuted in Coq.',
          'Trusted: Coq kernel + vm_compute; hand-written model coq/C14/Model.v; harness props/C14.py; contract: package functions respect numeric equality; no axioms.',
          'DESIGN.md section 3 C14, section 8'),
+ 'C15': ('LLE/SLE kernels and the cache decision GENERATED from lle.py/sle.py on every run (fail-closed translator) + Coq proofs of cache soundness, cached-branch consistency, labelling, SLE bounds for all histories + stubbed-solver correspondence',
+         'use_cache_sound (a call never reuses K from another T or composition), solver_sees_current, cached split is the RR split of the current z, '
+         'top_label, SLE only-solute-moves/bounds/pure rule. Equal-activity at fixed points is REFUTED for the inner loop as written (pinned by a doctest) -> '
+         'known finding with Coq witness, _partial proved; homogeneity PARTIAL (normalised feed identical for k*mol; scatter scaling lemma missing). '
+         'Global optimisers (SHGO/DE) and flexsolve are oracles.',
+         'Trusted: Coq kernel + vm_compute; translator tr/C15_kernels.py; hand-written coq/C15/{Base,Model}.v; harness props/C15.py; no axioms.',
+         'DESIGN.md section 3 C15, section 8'),
  'C10': ('Coq proof of cache coherence (lookup = pure classification for every lookup history), get/set refinement of dense positional access, name resolution + correspondence with histories that fill and evict both bounded caches',
          'lookup_pure by a cache-coherence invariant over unbounded histories (100-entry FIFO shared with index_overlap, 500/100 class-level cache), '
          'lookup_total, get_refines (chem and material, all key forms), set_get family with frames, group_scalar, names_single.',
